@@ -94,12 +94,21 @@ def check(chk: Check) -> None:
         fi = F.func(q)
         selft = ('param', om.self_param(F, q))
         vals = set()
+        from .c11 import _is_ply_call
         for p in SymExec(F, fi).run():
+            runs = [e for e in p.events if e.kind == 'call' and _is_ply_call(e, selft) and freeze(e.func)[2] in ('token', 'parse')]
+            if not runs:
+                continue
+            first = p.events.index(runs[0])
+            before = None
             for e in p.events:
                 if e.kind == 'store_attr' and e.attr == 'lineno' and freeze(e.obj) == ('attr', selft, 'lex'):
-                    vals.add(freeze(e.value))
                     if is_const(freeze(e.value)):
                         reset_nodes.extend(ast.walk(e.node))      # the statement that performs the reset (possibly in a helper)
+                    if p.events.index(e) < first:
+                        before = freeze(e.value)
+            # the counter as it stands when the first token of *this* text is read
+            vals.add(before if before is not None else ('unknown', 'whatever the previous call left'))
         chk.require(vals == {('const', 1)}, R1, '%s resets lineno' % q, fi.where,
                     'to 1' if vals == {('const', 1)} else 'the line counter starts at %s (lines are 1-based)' % (', '.join(show(v) for v in vals) or 'whatever the previous call left'))
     # nobody else
@@ -131,6 +140,9 @@ def check(chk: Check) -> None:
         msg = p.outcome[1]
         if not om.mentions(msg, ('attr', tok, 'value')):
             problems.append('the message does not contain the offending token\'s text (p.value)')
+        elif not any(_is_whole(x, ('attr', tok, 'value')) for x in _message_parts(msg)):
+            problems.append('on a path the message carries only a part or a transformation of the offending token\'s text (%s)' % ', '.join(
+                show(x) for x in _message_parts(msg) if om.mentions(x, ('attr', tok, 'value'))))
         if om.mentions(msg, ('attr', ('attr', tok, 'lexer'), 'lineno')):
             problems.append('the message reports p.lexer.lineno, the lexer\'s line *after* the offending token: one too many '
                             'when that token is itself a line break (`1 +<newline>2 2` ...)')
@@ -165,3 +177,55 @@ def check(chk: Check) -> None:
                         ok = True
         chk.require(ok, R2, 'ply.lex.Lexer.token sets tok.lineno before the rule runs', 'smartquery/ply/lex.py',
                     'tok.lineno = self.lineno precedes func(tok)' if ok else 'anchor not found: tok.lineno is not assigned before the rule function is called')
+
+
+def _message_parts(t) -> List[Any]:
+    """The pieces a message is put together from (f-string parts, + operands, format / % arguments, exception arguments)."""
+    t = freeze(t)
+    if not isinstance(t, tuple) or not t:
+        return [t]
+    if t[0] == 'new':
+        out = []
+        for _, v in t[2]:
+            out.extend(_message_parts(v))
+        return out
+    if t[0] == 'call' and isinstance(t[2], tuple) and t[2][:2] in (('ref', 'cls'), ('ref', 'builtin'), ('ref', 'ext')) and len(t) > 3 \
+            and not (t[2][:2] == ('ref', 'builtin') and t[2][2] in ('str', 'repr', 'format')):
+        out = []
+        for v in t[3]:
+            out.extend(_message_parts(v))
+        return out
+    if t[0] == 'fstr':
+        out = []
+        for v in t[1:]:
+            out.extend(_message_parts(v))
+        return out
+    if t[0] == 'binop' and t[1] in ('+', '%'):
+        return _message_parts(t[2]) + _message_parts(t[3])
+    if t[0] == 'tuple':
+        out = []
+        for v in t[1:]:
+            out.extend(_message_parts(v))
+        return out
+    if t[0] == 'call' and isinstance(t[2], tuple) and t[2][:1] == ('attr',) and t[2][2] in ('format', 'join'):
+        out = _message_parts(t[2][1])
+        for v in t[3]:
+            out.extend(_message_parts(v))
+        for _, v in t[4]:
+            out.extend(_message_parts(v))
+        return out
+    if t[0] == 'phi':
+        return _message_parts(t[3])
+    return [t]
+
+
+def _is_whole(x, value) -> bool:
+    x = freeze(x)
+    if x == value:
+        return True
+    if isinstance(x, tuple) and x[:1] == ('call',) and x[2] in (('ref', 'builtin', 'str'), ('ref', 'builtin', 'repr'), ('ref', 'builtin', 'format')) \
+            and x[3] and x[3][0] == value:
+        return True
+    if isinstance(x, tuple) and x[:1] == ('fconv',) and value in x:
+        return True
+    return False
